@@ -20,7 +20,8 @@ func TestMain(m *testing.M) {
 	vcore.Init("C16", "exploration",
 		"grammar-generated IPFilterRule strings (permit in|out, ip|0..255, any|assigned|host|prefix/0..32, 0..8 port items with singles and ranges, arbitrary blank/tab spacing) "+
 			"checked against an independent reference parser and through newFlowDesc + gtp5gnl.DecodeFlowDesc with and without uplink swap; plus near-miss mutations and arbitrary strings that must be rejected or handled without a fault. "+
-			"non-trivial = a port list containing a range AND a prefix length not in {0,32} AND swap=true; distinct by canonical rule text + swap",
+			"plus PDIs (Source Interface 0-3, 1-3 filters, optional F-TEID / UE address, members in a drawn order) through the real newPdi, which decides the exchange. "+
+			"non-trivial = a port list containing a range AND a prefix length not in {0,32} AND swap=true (distinct by canonical rule text + swap), or a PDI whose SDF Filter stands before its Source Interface with a filter that differs from its mirror image",
 		"reference parser written from the property statement (RFC 6733 IPFilterRule subset), not from flowdesc.go",
 		"any/assigned denote 0.0.0.0/0; ports are compared as ranges (n == n-n)",
 		"near-miss strings accepted by both parsers are not compared field by field: the statement only demands rejection or fault-free handling")
@@ -33,6 +34,8 @@ type Case struct {
 	// Valid says the text was produced by the grammar (Rule is its meaning).
 	Valid bool          `json:"valid"`
 	Rule  *flowgen.Rule `json:"rule,omitempty"`
+	// PDI, when set, is a case of the "filter inside a PDI" part (pdi_test.go).
+	PDI *PCase `json:"pdi,omitempty"`
 }
 
 // ---------------------------------------------------------------- oracle
@@ -222,6 +225,11 @@ func TestC16(t *testing.T) {
 			t.Fatalf("replay %s: %v", f, err)
 		}
 		vcore.E.Class("replayed")
+		if c.PDI != nil {
+			accountPDI(*c.PDI)
+			vcore.Report(t, checkPDI(*c.PDI), c)
+			continue
+		}
 		account(c)
 		vcore.Report(t, check(c), c)
 	}
@@ -243,6 +251,21 @@ func TestC16(t *testing.T) {
 		c := Case{Text: r.Text(), Swap: rapid.Bool().Draw(rt, "swap"), Valid: true, Rule: r}
 		account(c)
 		vcore.Report(rt, check(c), c)
+	})
+	// the filter inside a PDI: newPdi decides the exchange from the Source Interface member, wherever it stands
+	for _, srcIf := range []uint8{0, 1, 2, 3} {
+		for _, ord := range [][]int{nil, {0}, {1, 0}} {
+			r := &flowgen.Rule{Dir: "out", Proto: 17, Src: flowgen.Addr{Kind: "prefix", IP: [4]byte{10, 20, 30, 40}, Prefix: 24}, SrcPorts: []flowgen.PortItem{{Lo: 345, Hi: 345}, {Range: true, Lo: 789, Hi: 792}},
+				Dst: flowgen.Addr{Kind: "host", IP: [4]byte{50, 60, 70, 80}}}
+			pc := PCase{SrcIf: srcIf, Rules: []*flowgen.Rule{r}, UEIP: true, Order: ord}
+			accountPDI(pc)
+			vcore.Report(t, checkPDI(pc), Case{PDI: &pc})
+		}
+	}
+	vcore.Check(t, vcore.N(6000, 90000), func(rt *rapid.T) {
+		pc := genPDI(rt)
+		accountPDI(pc)
+		vcore.Report(rt, checkPDI(pc), Case{PDI: &pc})
 	})
 	vcore.Check(t, vcore.N(20000, 300000), func(rt *rapid.T) {
 		var c Case
